@@ -40,10 +40,11 @@ Theorem C05_worse_over_zero_is_neg_infinity :
 Proof. exact F_sub_div_zero. Qed.
 Print Assumptions C05_worse_over_zero_is_neg_infinity.
 
-Theorem C05_zero_times_one_minus_ratio :
-  forall r : F, fleb 0 r = true -> fleb r 1 = true -> fmul 0 (fsub 1 r) = 0%float.
-Proof. exact F_zero_mul_one_minus_ratio. Qed.
-Print Assumptions C05_zero_times_one_minus_ratio.
+Theorem C05_zero_times_cooling_factor :
+  forall r : F, fleb (- big) r = true -> fleb r big = true ->
+    (0 * nmax (NN:=NumF) 0 (1 - r))%float = 0%float.
+Proof. exact F_zero_mul_factor. Qed.
+Print Assumptions C05_zero_times_cooling_factor.
 
 Theorem C05_hill_climb_any_num :
   forall (NN : Num) (fexp : carrier NN -> carrier NN) (score : N -> list (carrier NN) -> option
